@@ -186,9 +186,52 @@ def project_adapt(sc, run):
     for d in draws:
         if d["adapt"]["draw"] == max(num_tune - 1, 0):
             bar_final = sval(d["out"]["stats"], "step_size_bar")
+    good_pts = []      # (position, gradient) of the accepted draws so far, in order
+    grad_based = ao.get("mass_matrix_options", {}).get("use_grad_based_estimate", True)
     for d in draws:
         a, o = d["adapt"], d["out"]
         stt = o["stats"]
+        # ---- which draws the estimator in use was built from (C09): recompute the diagonal scales from
+        # ---- exactly the last `fg` accepted draws and compare with the reported mass matrix
+        mmok = True
+        if kind == "global" and "lowrank" not in sc["preset"]:
+            pos, grd = stat(stt, "unconstrained_draw"), stat(stt, "gradient")
+            is_good = None
+            if d["ret"] is not None:
+                idx0, div0 = d["ret"]["idx"], d["ret"]["div"]
+                is_good = (abs(idx0) > 4) if div0 else (idx0 != 0)
+            if pos is not None and grd is not None and is_good is not None:
+                if a["branch"] == "mass" and is_good:
+                    good_pts.append(([f_from_bits(x) for x in pos["v"]], [f_from_bits(x) for x in grd["v"]]))
+                mm = stat(stt, "mass_matrix_inv")
+                n = a.get("fg", 0)
+                if a.get("changed") and mm is not None and 3 <= n <= len(good_pts):
+                    window = good_pts[len(good_pts) - n:]
+                    dim_ = len(window[0][0])
+
+                    def welford(series):
+                        mean = list(series[0])
+                        var = [0.0] * dim_
+                        for cnt, x in enumerate(series[1:], start=2):
+                            for i in range(dim_):
+                                diff = x[i] - mean[i]
+                                mean[i] += diff * (1.0 / cnt)
+                                var[i] += diff * diff
+                        return mean, var
+                    _, dv = welford([w[0] for w in window])
+                    _, gv = welford([w[1] for w in window])
+                    got = [f_from_bits(x) for x in mm["v"]]
+                    for i in range(dim_):
+                        if grad_based:
+                            val = math.sqrt(dv[i] / gv[i]) if gv[i] != 0 else float("nan")
+                        else:
+                            val = dv[i] * (1.0 / n)
+                        if math.isfinite(val) and val != 0:
+                            val = min(max(val, 1e-20), 1e20)
+                            if not close(math.sqrt(val), got[i], rel=1e-9):
+                                mmok = False
+            else:
+                good_pts = good_pts if is_good is None else good_pts
         jit = None
         base = None
         if d["ss_set"]:
@@ -223,7 +266,7 @@ def project_adapt(sc, run):
                 "tid": a["tid"], "tuning": a["tuning"], "ptuning": o["progress"]["tuning"],
                 "stuning": sval(stt, "tuning"), "fedcalls": fedcalls, "fedvalok": fedvalok,
                 "barsame": bool(barsame), "inband": bool(inband), "stepok": bool(stepok), "good": good,
-                "diag": "lowrank" not in sc["preset"],
+                "diag": "lowrank" not in sc["preset"], "mmok": bool(mmok),
                 "stepf": step if math.isfinite(step) else None, "barf": bar if math.isfinite(bar) else None}
         if kind == "global":
             line.update({"switched": a["switched"], "changed": a["changed"], "research": a["research"],
